@@ -25,6 +25,43 @@ static inline QByteArray QByteArray_ctor(void) { QByteArray s; s.isnull = 1; s.i
 typedef struct { int id; } QVariant;
 typedef struct { int id; } QVariantHash;
 static inline QVariantHash QVariantHash_ctor(void) { QVariantHash h; h.id = 0; return h; }
+/* map operations on identities: uninterpreted functions (equal arguments give equal results, nothing else known) */
+int __CPROVER_uninterpreted_hash_merge(int base, int overlay);        /* QHash::insert(const QHash&) */
+int __CPROVER_uninterpreted_hash_insert(int base, int key, int value); /* QHash::insert(key, value)   */
+int __CPROVER_uninterpreted_hash_remove(int base, int key);
+BOOL __CPROVER_uninterpreted_hash_contains(int base, int key);
+int __CPROVER_uninterpreted_hash_value(int base, int key);
+int __CPROVER_uninterpreted_hash_size(int base);
+#define QSTRING_KEY(s) ((s).len == 0 ? 0 : (s).id)
+#ifndef VERIF_OWN_QVARIANTHASH_INSERT
+static inline void QVariantHash_insert__QVariantHash(QVariantHash *self, QVariantHash other)
+{ self->id = __CPROVER_uninterpreted_hash_merge(self->id, other.id); }
+#endif
+static inline void QVariantHash_insert__QString_QVariant(QVariantHash *self, QString key, QVariant v)
+{ self->id = __CPROVER_uninterpreted_hash_insert(self->id, QSTRING_KEY(key), v.id); }
+static inline int QVariantHash_remove__QString(QVariantHash *self, QString key)
+{ int had = __CPROVER_uninterpreted_hash_contains(self->id, QSTRING_KEY(key)) != 0; self->id = __CPROVER_uninterpreted_hash_remove(self->id, QSTRING_KEY(key)); return had; }
+static inline BOOL QVariantHash_contains__QString(QVariantHash self, QString key)
+{ return __CPROVER_uninterpreted_hash_contains(self.id, QSTRING_KEY(key)) != 0; }
+static inline QVariant QVariantHash_value__QString(QVariantHash self, QString key)
+{ QVariant v; v.id = __CPROVER_uninterpreted_hash_value(self.id, QSTRING_KEY(key)); return v; }
+static inline BOOL QVariantHash_isEmpty(QVariantHash self) { return __CPROVER_uninterpreted_hash_size(self.id) == 0; }
+
+/* abstract QList<QString> (also QStringList): length only, elements nondeterministic */
+typedef struct { int n; } QList_QString;
+typedef QList_QString QStringList;
+typedef struct { int n; int i; } QList_QString_const_iterator;
+typedef QList_QString_const_iterator QList_QString_iterator;
+int nondet_int(void);
+static inline QList_QString QVariantHash_keys(QVariantHash self)
+{ QList_QString l; l.n = __CPROVER_uninterpreted_hash_size(self.id); __CPROVER_assume(l.n >= 0); return l; }
+static inline QList_QString_const_iterator QList_QString_begin(QList_QString l) { QList_QString_const_iterator it; it.n = l.n; it.i = 0; return it; }
+static inline QList_QString_const_iterator QList_QString_end(QList_QString l) { QList_QString_const_iterator it; it.n = l.n; it.i = l.n; return it; }
+static inline BOOL QList_QString_const_iterator_op_ne__QList_QString_const_iterator(QList_QString_const_iterator a, QList_QString_const_iterator b) { return a.i != b.i; }
+static inline QList_QString_const_iterator *QList_QString_const_iterator_op_inc(QList_QString_const_iterator *a) { a->i++; return a; }
+static inline QString QList_QString_const_iterator_op_deref(QList_QString_const_iterator it)
+{ __CPROVER_assert(0 <= it.i && it.i < it.n, "QList<QString>::const_iterator dereferenced inside [begin,end)");
+  QString s; s.isnull = 0; s.id = nondet_int(); s.len = nondet_int(); s.tag = 0; __CPROVER_assume(s.len >= 0); return s; }
 
 typedef struct { long long msecs; int valid; } QDateTime;
 typedef struct { long long jd; } QDate;
